@@ -203,4 +203,18 @@ CHECKS = {
         'outside': ['base fees >= 2^252 (the next base fee, up to 9/8 of it, no longer fits sdkmath.Int)', 'module-manager ordering of end blockers', 'London fork not active (config is the default chain config, all forks at block 0)'],
         'assumptions': COMMON_ASSUMPTIONS,
     },
+    'C18': {
+        'pkgs': ['./zzverif/hcpc', './x/vauth'],
+        'harnesses': [
+            {'fn': C + 'H_C18_1_Evm'},
+            {'fn': C + 'H_C18_2_FeeMarket'},
+            {'fn': C + 'H_C18_3_Cpc'},
+            {'fn': P + 'x/vauth.H_C18_4_VAuth', 'must_reach': ['checked']},
+        ],
+        'level_text': 'Bounded symbolic execution of the real export -> init round trip of the four custom modules: evm.ExportGenesis/InitGenesis over two contracts with two code variants and symbolic storage (absent and present slots) plus an externally owned account, z3 deciding that code, code hash, every slot, the whole x/evm store and the params are reproduced and that the second export equals the first; feemarket with a symbolic base fee and minimum gas price; cpc.ExportGenesis/InitGenesis over every combination of bech32/staking/ERC-20 contracts, whitelist and a symbolic allowance; the vauth module\'s ExportGenesis/InitGenesis with and without a stored proof.',
+        'level_note': 'Known findings C18-F1 (cpc export drops ERC-20 precompiles, their denomination index and allowances) and C18-F2 (vauth export drops ownership proofs) are open: repair needs new genesis fields. Genesis JSON is an inverse-pair model (native replay uses the real ProtoCodec).',
+        'bounds': ['evm: 2 contracts x {2 code variants} x 2 slots each {absent | symbolic non-zero byte}, 1 EOA', 'feemarket: base fee and min gas price (18-decimals raw) < 2^250', 'cpc: {bech32} + optional staking + optional ERC-20 + optional allowance, whitelist of 0-2 addresses'],
+        'outside': ['app/export.go orchestration and the SDK modules\' own exports (auth accounts are re-created by the harness)', 'self-destructed / deleted contracts in the history (the exported state is a store content, histories are not replayed)'],
+        'assumptions': TX_ASSUMPTIONS,
+    },
 }
